@@ -73,3 +73,43 @@ fn vx_witness_bubble_guess_copies() {
     }
     println!("copies found: {n_bad}");
 }
+
+/// C05.4 "a bubble (dew) point keeps the specified liquid (vapor) composition and the specified T": Peng-Robinson
+/// methane / n-decane up to pressures where the methane-rich vapor is DENSER (mol/m3) than the liquid, plus PC-SAFT
+/// propane/butane: the phase with the specified composition must come back as liquid() of a bubble point and as
+/// vapor() of a dew point, at exactly the specified temperature
+#[test]
+fn vx_witness_bubble_guess_spec() {
+    use feos_core::cubic::{PengRobinson, PengRobinsonParameters};
+    let pr = Arc::new(PengRobinson::new(Arc::new(PengRobinsonParameters::new_simple(&[190.56, 617.7], &[45.99e5, 21.1e5], &[0.011, 0.489], &[16.043, 142.28]).unwrap())));
+    let (mut n_ok, mut n_bad) = (0, 0);
+    for t in [300.0, 350.0] {
+        let t = t * KELVIN;
+        for ix in 1..=15 {
+            let x1 = 0.05 * ix as f64;
+            let x = arr1(&[x1, 1.0 - x1]);
+            if let Ok(vle) = PhaseEquilibrium::bubble_point(&pr, t, &x, None, None, Default::default()) {
+                n_ok += 1;
+                let d = (&vle.liquid().molefracs - &x).mapv(f64::abs).sum();
+                if !(d < 1e-10) || vle.liquid().temperature != t {
+                    n_bad += 1;
+                    if n_bad <= 4 { println!("WITNESS bubble_point(PR methane/decane, T={t}, liquid x={x}) returned liquid() with x={} at T={} (vapor y={}, rho_v={}, rho_l={})", vle.liquid().molefracs, vle.liquid().temperature, vle.vapor().molefracs, vle.vapor().density, vle.liquid().density); }
+                }
+            }
+        }
+        for y1 in [0.9, 0.95, 0.99, 0.999] {
+            let y = arr1(&[y1, 1.0 - y1]);
+            for p0 in [None, Some(300.0 * BAR)] {
+                if let Ok(vle) = PhaseEquilibrium::dew_point(&pr, t, &y, p0, None, Default::default()) {
+                    n_ok += 1;
+                    let d = (&vle.vapor().molefracs - &y).mapv(f64::abs).sum();
+                    if !(d < 1e-10) || vle.vapor().temperature != t {
+                        n_bad += 1;
+                        if n_bad <= 4 { println!("WITNESS dew_point(PR methane/decane, T={t}, vapor y={y}, p0={p0:?}) returned vapor() with y={} at T={}", vle.vapor().molefracs, vle.vapor().temperature); }
+                    }
+                }
+            }
+        }
+    }
+    println!("explored: {n_ok} bubble/dew points with specified composition, {n_bad} not echoed");
+}
